@@ -41,7 +41,25 @@ func c09Bases() []c09Base {
 	eit := modelEIT(3)
 	tot := modelTOT()
 	eitBig := modelEIT(48) // section_length beyond 1021: only EIT (and TOT-class tables) may be that long
-	return []c09Base{
+	// sections whose CRC_32 ends in 0xFF / 0xFFFF (they look like the stuffing that follows them) and in 0x00
+	var crcFF []c09Base
+	want := []struct {
+		mask, val uint32
+		name      string
+	}{{0xff, 0xff, "PAT-crc-ends-ff"}, {0xffff, 0xffff, "PAT-crc-ends-ffff"}, {0xff, 0x00, "PAT-crc-ends-00"}}
+	for _, w := range want {
+		for tsid := 0; tsid < 1<<16; tsid++ {
+			d := &astits.PATData{TransportStreamID: uint16(tsid), Programs: []*astits.PATProgram{{ProgramNumber: 1, ProgramMapID: 0x1000}}}
+			sec := SecPAT(d, ref.SecHdr{CNI: true})
+			n := len(sec)
+			crc := uint32(sec[n-4])<<24 | uint32(sec[n-3])<<16 | uint32(sec[n-2])<<8 | uint32(sec[n-1])
+			if crc&w.mask == w.val {
+				crcFF = append(crcFF, c09Base{w.name, 0, [][]byte{sec}, []ExpData{{Kind: "PAT", Table: d}}})
+				break
+			}
+		}
+	}
+	return append(crcFF, []c09Base{
 		{"PAT", 0, [][]byte{SecPAT(pat, ref.SecHdr{CNI: true, Version: 7})}, []ExpData{{Kind: "PAT", Table: pat}}},
 		{"PMT", 0x1000, [][]byte{SecPMT(pmt, ref.SecHdr{CNI: true, Version: 1})}, []ExpData{{Kind: "PMT", Table: pmt}}},
 		{"SDT-2-sections", 0x11, [][]byte{SecSDT(sdtA, ref.SecHdr{CNI: true, LSN: 1}), SecSDT(sdtB, ref.SecHdr{TableID: 0x46, CNI: true, SN: 1, LSN: 1})}, []ExpData{{Kind: "SDT", Table: sdtA}, {Kind: "SDT", Table: sdtB}}},
@@ -49,7 +67,7 @@ func c09Bases() []c09Base {
 		{"EIT-2-packets", 0x12, [][]byte{SecEIT(eit, ref.SecHdr{TableID: 0x51, CNI: true})}, []ExpData{{Kind: "EIT", Table: eit}}},
 		{"TOT", 0x14, [][]byte{SecTOT(tot)}, []ExpData{{Kind: "TOT", Table: tot}}},
 		{"EIT-over-1021-bytes", 0x12, [][]byte{SecEIT(eitBig, ref.SecHdr{TableID: 0x60, CNI: true})}, []ExpData{{Kind: "EIT", Table: eitBig}}},
-	}
+	}...)
 }
 
 // c09Run delivers a (possibly corrupted) unit payload on its PID and applies the oracle.
